@@ -5,7 +5,16 @@ import random
 from harness import runner, tlc
 from harness.carrier import carrier_yaml
 
-INV = ['UniqueNormalForm', 'NoDefinedSymbolRemains', 'OnlyWholeWords', 'CycleRejected', 'RedefinitionRejected', 'Emit']
+INV = ['UniqueNormalForm', 'NoDefinedSymbolRemains', 'OnlyWholeWords', 'CycleRejected', 'RedefinitionRejected', 'ExpansionIsTokenwise', 'Emit']
+# a letter-wise renaming keeps every prefix / suffix / infix relation of the names; the second one yields names that look like
+# hexadecimal literals with an H suffix (ADCH, CH) without being used as numbers
+RENAMES = {'plain': {}, 'hexlike': {'A': 'AD', 'B': 'C', 'C': 'H', 'X': 'F'}}
+
+
+def ren(tok, m):
+    if m and tok and all(ch in 'ABCX' for ch in tok):
+        return ''.join(m[ch] for ch in tok)
+    return tok
 CONST = {'AB': 101, 'BC': 102, 'ABC': 103, 'XAB': 104}
 PRE = {'NoDefs': ([], []), 'PreDefs': ([('BC', '7')], ['XAB=BC + 1'])}
 
@@ -17,11 +26,20 @@ def cfg(lines, initdefs, maxlen):
 
 def eval_hist(args):
     """Direct API replay: one Preprocessor object, lines fed in order. Returns mismatch description or None."""
-    h, outs, st, pre = args
+    h, outs, st, pre, variant = args
+    rname, rep = variant
+    m = RENAMES[rname]
+    h = [dict(l, n=ren(l['n'], m), r=[ren(t, m) for t in l['r']]) for l in h]
+    outs = [[ren(t, m) for t in o] for o in outs]
+    if rep > 1:       # every use line repeated rep times (ExpansionIsTokenwise)
+        h = [l if l['k'] == 'D' else dict(l, r=(l['r'] + ['+']) * (rep - 1) + l['r']) for l in h]
+        outs = [(o + ['+']) * (rep - 1) + o for o in outs]
     runner.import_repo()
     from bespokeasm.assembler.preprocessor import Preprocessor
     from bespokeasm.assembler.line_identifier import LineIdentifier
     isa_syms, cli = PRE[pre]
+    isa_syms = [(ren(n, m), ' '.join(ren(t, m) for t in v.split())) for n, v in isa_syms]
+    cli = [ren(c.split('=')[0], m) + '=' + ' '.join(ren(t, m) for t in c.split('=')[1].split()) for c in cli]
     try:
         with runner.watchdog(5.0):
             pp = Preprocessor([{'name': n, 'value': v} for n, v in isa_syms])
@@ -100,7 +118,7 @@ def run(chk):
                 '3-cycles, uses before and after the definition. TLC checks UniqueNormalForm (recursive expansion = leftmost '
                 'and rightmost single-step rewriting), NoDefinedSymbolRemains, OnlyWholeWords, CycleRejected, '
                 'RedefinitionRejected. Each history is replayed line by line into one real Preprocessor object '
-                '(create_symbol / resolve_symbols) and compared token for token; a sample goes end to end (#define lines, '
+                '(create_symbol / resolve_symbols) and compared token for token - three times: as is, with the names renamed letter-wise to look like hexadecimal literals (ADC, ADCH, FADC, CH), and with every use line repeated nine times (ExpansionIsTokenwise); a sample goes end to end (#define lines, '
                 '.byte use lines, residual identifiers bound to constants, -D and predefined.symbols). '
                 'Non-trivial = history with a use line after at least one definition.')
     chk.assumptions = ['a cyclic symbol that is never used is not required to be rejected',
@@ -113,14 +131,15 @@ def run(chk):
         emits = res.emits
         chk.notes.setdefault('instances', []).append({'tag': tag, 'lines': lines, 'init_defs': pre, 'max_len': ml, 'histories': len(emits)})
         args = [(e['h'], e['outs'], e['st'], pre) for e in emits]
-        out = runner.pmap(eval_hist, args)
-        for a, r in zip(args, out):
+        dargs = [a + (v,) for a in args for v in (('plain', 1), ('hexlike', 1), ('plain', 9))]
+        out = runner.pmap(eval_hist, dargs)
+        for a, r in zip(dargs, out):
             chk.traces += 1
             h = a[0]
             if any(l['k'] == 'U' for l in h) and any(l['k'] == 'D' for l in h):
-                chk.nontriv((tag, json.dumps(h)))
+                chk.nontriv((tag, a[4], json.dumps(h)))
             if r is not None:
-                chk.violation(f'{r} | history: ' + ' ; '.join((f'#define {l["n"]} {" ".join(l["r"])}' if l['k'] == 'D' else 'use ' + ' '.join(l['r'])) for l in h),
+                chk.violation(f'{r} | names {a[4][0]}, use lines repeated {a[4][1]}x | history: ' + ' ; '.join((f'#define {l["n"]} {" ".join(l["r"])}' if l['k'] == 'D' else 'use ' + ' '.join(l['r'])) for l in h),
                               {'history': h, 'init': pre}, {'outs': a[1], 'status': a[2]}, r, {'kind': 'direct'})
         samp = [a for a in args if a[2] == 'run' and len(a[1]) >= 2]
         if samp:
